@@ -199,6 +199,74 @@ pub fn replay(ctx: &Ctx, body: &serde_json::Value) -> i32 {
     }
 }
 
+/// A circuit with two Poseidon2 tables (width 16 and width 32): `n32` width-32 sponge rows with
+/// one exposed output each, and a width-16 Merkle chain of `depth` rows whose last row takes its
+/// index accumulator from one of those outputs (one table's reader, the other table's creator).
+/// Only compiled and key-generated (the index is not the path's index, so it would not run).
+fn mixed_tables_circuit(n32: usize, depth: usize, which: usize) -> Result<p3_circuit::Circuit<p3_test_utils::koala_bear_params::Challenge>, String> {
+    use p3_circuit::ops::{Poseidon2Config, Poseidon2PermCall, generate_poseidon2_trace};
+    use p3_field::PrimeCharacteristicRing;
+    use p3_poseidon2_circuit_air::{KoalaBearD4Width16, KoalaBearD4Width32};
+    type EF = p3_test_utils::koala_bear_params::Challenge;
+    let mut b = p3_circuit::CircuitBuilder::<EF>::new();
+    b.enable_poseidon2_perm::<KoalaBearD4Width16, _>(generate_poseidon2_trace::<EF, KoalaBearD4Width16>, p3_koala_bear::default_koalabear_poseidon2_16());
+    b.enable_poseidon2_perm_width_32::<KoalaBearD4Width32, _>(generate_poseidon2_trace::<EF, KoalaBearD4Width32>, p3_koala_bear::default_koalabear_poseidon2_32());
+    let (w32, w16) = (Poseidon2Config::KOALA_BEAR_D4_W32, Poseidon2Config::KOALA_BEAR_D4_W16);
+    let mut exposed = Vec::new();
+    for k in 0..n32 {
+        let inputs = (0..w32.width_ext()).map(|i| Some(b.alloc_const(EF::from_u64(100 + (k * 16 + i) as u64), "w32_in"))).collect();
+        let mut out_ctl = vec![false; w32.rate_ext()];
+        out_ctl[0] = true;
+        let (_, outs) = b
+            .add_poseidon2_perm(&Poseidon2PermCall { config: w32, new_start: true, merkle_path: false, mmcs_bit: None, mmcs_bit2: None, inputs, out_ctl, return_all_outputs: false, mmcs_index_sum: None })
+            .map_err(|e| format!("{e:?}"))?;
+        exposed.push(outs[0].ok_or("no exposed output")?);
+    }
+    let mut last = Vec::new();
+    for r in 0..depth {
+        let bit = b.alloc_const(EF::from_bool(r % 2 == 1), "bit");
+        let inputs = if r == 0 { (0..w16.width_ext()).map(|i| Some(b.alloc_const(EF::from_u64(7 + i as u64), "leaf"))).collect() } else { vec![None; w16.width_ext()] };
+        let is_last = r + 1 == depth;
+        let (_, outs) = b
+            .add_poseidon2_perm(&Poseidon2PermCall { config: w16, new_start: r == 0, merkle_path: true, mmcs_bit: Some(bit), mmcs_bit2: None, inputs, out_ctl: vec![is_last, is_last], return_all_outputs: false, mmcs_index_sum: is_last.then(|| exposed[which % exposed.len()]) })
+            .map_err(|e| format!("{e:?}"))?;
+        last = outs;
+    }
+    for o in last.iter().take(2) {
+        let e = b.public_input();
+        b.connect(o.ok_or("no root")?, e);
+    }
+    b.build().map_err(|e| format!("{e:?}"))
+}
+
+/// (circuit digest, key digest) of one non-primitive-table circuit family member under one
+/// hash-iteration order.
+fn npo_item(family: &str, seed: u64, hash_seed: u64) -> Result<(u64, u64), String> {
+    use crate::props::c08;
+    use crate::uni::Kb4;
+    foldhash::sim::set_seed(hash_seed);
+    let mut rng = Rng::new(seed, "C18-npo", 0);
+    let npo = BuilderOpts { poseidon: true, recompose: true };
+    let (circuit, cfg) = match family {
+        "mixed" => (mixed_tables_circuit(rng.range(1, 3), rng.range(2, 4), rng.usize_below(3))?, ProverCfg { npo, poseidon_both: true, ..ProverCfg::default() }),
+        "a4" => {
+            let shape = c08::draw_shape(&mut rng, "U-KB4-A4", Tier::Quick);
+            (c08::kb4a4::build_and_run(&shape, 1)?.0, ProverCfg { npo, poseidon_w32: true, ..ProverCfg::default() })
+        }
+        "p1" => {
+            let shape = c08::draw_shape(&mut rng, "U-KB4", Tier::Quick);
+            (c08::kb4p1::build_and_run(&shape, 1)?.0, ProverCfg { npo, poseidon1: true, ..ProverCfg::default() })
+        }
+        _ => {
+            let shape = c08::draw_shape(&mut rng, "U-KB4", Tier::Quick);
+            (c08::kb4::build_and_run(&shape, 1)?.0, ProverCfg { npo, ..ProverCfg::default() })
+        }
+    };
+    let cd = circuit_digest::<<Kb4 as CircuitUni>::BF, <Kb4 as CircuitUni>::EF>(&circuit);
+    let (_, info) = pipe::keygen::<Kb4>(&circuit, &cfg).map_err(|f| format!("keygen:{}", f.msg))?;
+    Ok((cd, digest_key_info(&info)))
+}
+
 /// Scale arm: one program with more than 2^20 distinct binary sub-expressions (a chain of additions),
 /// which then re-derives its first links and keeps computing with them. Bounded caches, pools with
 /// eviction and "large input" fast paths only wake up at this size.
@@ -367,6 +435,38 @@ pub fn main(ctx: &Ctx) -> i32 {
                     }
                 }
                 _ => total.count("large_program_build_failed"),
+            }
+        }
+    }
+    // non-primitive tables: library Merkle openings (arity 2 over Poseidon2 and Poseidon1, arity 4)
+    // and a circuit with two Poseidon2 tables reading each other's outputs, compiled and
+    // key-generated under several iteration orders
+    for (fi, family) in ["a2", "a4", "p1", "mixed"].iter().enumerate() {
+        let k: u64 = ctx.tier.pick(4, 12);
+        for item in 0..ctx.tier.pick(2u64, 6) {
+            let seed = mix(mix(ctx.seed, 0x6e70 + fi as u64), item);
+            let mut first: Option<(u64, (u64, u64))> = None;
+            for j in 0..k {
+                let hs = mix(mix(seed, 0x68), j);
+                match observe(|| npo_item(family, seed, hs)) {
+                    Ok(Ok(d)) => {
+                        total.evals += 1;
+                        total.count(&format!("npo_builds_{family}"));
+                        match first {
+                            None => first = Some((hs, d)),
+                            Some((h0, d0)) if d0 != d => {
+                                total.violate(
+                                    format!("hash_order_dependent:npo:{family}:{}", if d0.0 != d.0 { "circuit" } else { "keys" }),
+                                    format!("a {family} circuit compiles / key-generates differently under two hash-iteration orders (circuit {:016x} keys {:016x} vs circuit {:016x} keys {:016x})", d0.0, d0.1, d.0, d.1),
+                                    json!({"npo_family": family, "item_seed": seed, "seed_a": h0, "seed_b": hs}),
+                                );
+                                break;
+                            }
+                            _ => {}
+                        }
+                    }
+                    _ => total.count(&format!("npo_build_failed_{family}")),
+                }
             }
         }
     }
